@@ -172,7 +172,7 @@ def lockPaths : List (String × List (List String)) := [
   ("Save", [[], ["Lock", "Unlock"]])]
 
 /-- skeletons of the `init` functions per package (empty list: the package has none) -/
-def initFuncs : List (String × List String) := [("x/aol/types", ["call RegisterCodec", "call amino.Seal"])]
+def initFuncs : List (String × List String) := [("x/aol/types", ["call RegisterCodec(amino)", "call amino.Seal()"])]
 
 /-- which of Route / Type / GetSignBytes / GetSigners / ValidateBasic each message type implements -/
 def msgMethods : List (String × List String) := [
